@@ -71,11 +71,10 @@ theorem shapeOfL_length : ∀ (fuel : Nat) (G : List (String × Shape)) (es : Li
       simp [shapeOfL_length fuel G es ss' h2]
     · cases h
 
-/-- a typed key lookup in a dictionary literal finds what the simplifier's lookup finds -/
-theorem dctGet_findSome (k : Const) (f : Expr × Expr → Option Expr)
-    (hf : ∀ c v, f (.const c, v) = if constKeyEq c k = true then some v else Option.none) :
+/-- a typed key lookup in a dictionary literal finds something where the simplifier's lookup finds something -/
+theorem dctGet_lookupLast (k : Const) :
     ∀ (ks vs : List Expr) (cs : List Const) (ss : List Shape) (σ : Shape),
-    constsOf ks = some cs → ss.length = vs.length → dctGet cs ss k = some σ → ((ks.zip vs).findSome? f).isSome = true
+    constsOf ks = some cs → ss.length = vs.length → dctGet cs ss k = some σ → (dictLookupLast k ks vs).isSome = true
   | [], vs, cs, ss, σ, hc, hl, hg => by
     simp only [constsOf, Option.some.injEq] at hc; subst hc; simp [dctGet] at hg
   | .const c :: ks, [], cs, ss, σ, hc, hl, hg => by
@@ -92,11 +91,15 @@ theorem dctGet_findSome (k : Const) (f : Expr × Expr → Option Expr)
       | cons s ss' =>
         simp only [List.length_cons, Nat.add_right_cancel_iff] at hl
         simp only [dctGet] at hg
-        simp only [List.zip_cons_cons, List.findSome?_cons, hf]
-        by_cases hk : constKeyEq c k = true
-        · simp [hk]
-        · simp only [hk, if_false] at hg ⊢
-          exact dctGet_findSome k f hf ks vs cs' ss' σ h2 hl hg
+        simp only [dictLookupLast]
+        cases hr : dictLookupLast k ks vs with
+        | some r => rfl
+        | none =>
+          by_cases hk : constKeyEq c k = true
+          · simp [hk]
+          · simp only [hk, if_false] at hg
+            have := dctGet_lookupLast k ks vs cs' ss' σ h2 hl hg
+            rw [hr] at this; cases this
   | .name _ :: _, _, _, _, _, h, _, _ => by simp [constsOf] at h
   | .attr _ _ :: _, _, _, _, _, h, _, _ => by simp [constsOf] at h
   | .call _ _ _ _ :: _, _, _, _, _, h, _, _ => by simp [constsOf] at h
@@ -112,7 +115,7 @@ theorem dctGet_dictLookup (ks vs : List Expr) (cs : List Const) (ss : List Shape
     (hc : constsOf ks = some cs) (hl : ss.length = vs.length) (hg : dctGet cs ss k = some σ) :
     (dictLookup ks vs k).isSome = true := by
   simp only [dictLookup, constsOf_allConst ks cs hc, if_true]
-  exact dctGet_findSome k _ (fun c v => rfl) ks vs cs ss σ hc hl hg
+  exact dctGet_lookupLast k ks vs cs ss σ hc hl hg
 
 
 theorem isOpq_eq {s : Shape} (h : s.isOpq = true) : s = .opq := by cases s <;> simp_all [Shape.isOpq]
